@@ -82,6 +82,17 @@ class ConstEval(object):
             if isinstance(b, list):
                 b = tuple(b)
             return a % b
+        if isinstance(node, ast.JoinedStr):
+            # canonical form of '..{0}..'.format(..) and '..%s..' % (..): same result shape as self.format()
+            out = []
+            for v in node.values:
+                if isinstance(v, ast.Constant):
+                    out.append(v.value)
+                else:
+                    out.append(self.eval(v.value, mod, fn, env, symbolic, depth + 1))
+            if all(isinstance(x, str) for x in out):
+                return ''.join(out)
+            return [x for x in out if x != '']
         if isinstance(node, ast.Call):
             f = node.func
             if isinstance(f, ast.Attribute) and f.attr == 'format':
